@@ -114,7 +114,7 @@ _san_budget = {}
 
 
 MODELLED = {'reshape': 'v_reshape', 'pipe_reshape_transpose': 'v_pipe_reshape_transpose', 'broadcast_to': 'v_broadcast_to', 'add': 'v_add',
-            'pad': 'v_pad', 'tile': 'v_tile', 'roll': 'v_roll'}
+            'pad': 'v_pad', 'tile': 'v_tile', 'roll': 'v_roll', 'where3': 'v_where3'}
 
 
 def both(req, oracle, tags, nontrivial=True, model=False, dom=True):
@@ -184,6 +184,14 @@ def gen(tier, rng):
         yield from both('matmul shape=%s shape2=%s' % (fmt(s1), fmt(s2)), ora(lambda: np.matmul(arr(s1), arr(s2, 1))), ['matmul'])
         for ax in range(-len(s1) - 1, len(s1) + 1):
             yield from both('concatenate shape=%s shape2=%s axis=%d' % (fmt(s1), fmt(s2), ax), ora(lambda: np.concatenate([arr(s1), arr(s2, 1000)], axis=ax)), ['concatenate'])
+    # three operands (variadic broadcast): every triple of small shapes where at least one pair is incompatible, plus compatible ones
+    tri = [s for s in shapes(2, 3, min_rank=1) if prod(s) <= 6] + [[1, 1, 2], [2, 1, 1]]
+    triples = list(itertools.product(tri, repeat=3))
+    for s1, s2, s3 in pick(triples, 600 if tier == 'quick' else 3000):
+        def wf():
+            c = (np.arange(prod(s1)) % 2).reshape(s1)
+            return np.where(c != 0, arr(s2, 1000), arr(s3, 2000))
+        yield from both('where3 shape=%s shape2=%s shape3=%s' % (fmt(s1), fmt(s2), fmt(s3)), ora(wf), ['where3'])
     # pipelines
     for s in pick(small, 10):
         for t in itertools.product([-1, 1, 2, 3, 4, 6], repeat=2):
